@@ -52,6 +52,10 @@ def build(rng, enz):
             feats.append(Feat(1, "u92", (), ((fs - 1, fs + 2, -1),)))                           # one before the start
         if L >= 4 and fs + L <= n and rng.random() < 0.5:
             feats.append(Feat(2, "u93", (), ((fs, fs + 2, 1), (fs + 2, fs + L, 1))))            # abutting parts
+        if L >= 2 and fs + L <= n and rng.random() < 0.25:
+            # a feature that was never given a type (SeqFeature's default, the empty string): inherited as it is
+            a_ = rng.randrange(fs, fs + L - 1)
+            feats.append(Feat(8, "u96", (), ((a_, a_ + 1, rng.choice([1, -1])),)))
         if L >= 3 and fs + L <= n and rng.random() < 0.4:
             # a between-bases site (`p^p+1`, a zero-width location) strictly inside the retained fragment
             p_ = rng.randrange(fs + 1, fs + L)
